@@ -208,7 +208,7 @@ pub fn run(rep: &mut Report) {
         rep.absorb("head/tail exchanges", "every head of <= 3 (thorough 4) Pauli / S / T gates on 2 qubits followed by one of 4 entangling tails (phase gadgets after simplification), against the same circuit with two adjacent head gates exchanged", true, None, t0, st);
     }
     // constructed partners
-    for (name, q, alpha, d) in if quick { vec![("partners K(2,3,A_ct)", 2usize, alpha_ct(2), 3usize), ("partners K(3,1,A_full)", 3, alpha_full(3), 1), ("partners K(2,1,A_tol)", 2, alpha_tol(2), 1)] } else { vec![("partners K(2,3,A_ct)", 2, alpha_ct(2), 3), ("partners K(3,2,A_ct)", 3, alpha_ct(3), 2), ("partners K(3,2,A_full)", 3, alpha_full(3), 2), ("partners K(2,2,A_tol)", 2, alpha_tol(2), 2)] } {
+    for (name, q, alpha, d) in if quick { vec![("partners K(2,3,A_ct)", 2usize, alpha_ct(2), 3usize), ("partners K(3,1,A_full)", 3, alpha_full(3), 1), ("partners K(2,1,A_tol)", 2, alpha_tol(2), 1), ("partners K(3,2,A_pp)", 3, alpha_pp(3), 2)] } else { vec![("partners K(2,3,A_ct)", 2, alpha_ct(2), 3), ("partners K(3,2,A_ct)", 3, alpha_ct(3), 2), ("partners K(3,2,A_full)", 3, alpha_full(3), 2), ("partners K(2,2,A_tol)", 2, alpha_tol(2), 2), ("partners K(3,3,A_pp)", 3, alpha_pp(3), 3)] } {
         let t0 = Instant::now();
         let n = circuit_count(alpha.len(), d);
         let stats = sweep_range(n, |st, idx| {
